@@ -36,12 +36,21 @@ type Graph struct {
 	addrTook []*ssa.Function
 	named    []*types.Named // named types declared in repo packages
 	// Tables: package-level map[K]func variables -> functions stored in them by init, with constant keys.
-	Tables     map[*ssa.Global][]TableEntry
-	fieldTypes map[*types.Var]*fieldTypeInfo
+	Tables map[*ssa.Global][]TableEntry
+	// FieldTables: package-level arrays of structs with function-typed fields (`var t = [...]S{k: {a: f, b: g}}`): one table
+	// per (array, field), keyed by the constant element index.
+	FieldTables map[FieldTableKey][]TableEntry
+	fieldTypes  map[*types.Var]*fieldTypeInfo
 	// tblBind: while a callee is expanded for one call site, its parameters that receive a dispatch table (a load of a
 	// package-level table) are bound to that table, so that `param[key](…)` resolves to the members of that table only.
 	tblBind map[*ssa.Parameter]*ssa.Global
 	wtpMemo map[[2]interface{}]int
+}
+
+// FieldTableKey names one function-typed field of the element struct of a package-level array.
+type FieldTableKey struct {
+	Global *ssa.Global
+	Field  int
 }
 
 // TableEntry is one `key: fn` element of a package-level dispatch table.
@@ -74,7 +83,7 @@ func IsIPLDInterface(t types.Type) bool {
 
 // BuildGraph constructs G.
 func BuildGraph(p *Program) *Graph {
-	g := &Graph{P: p, Out: map[*ssa.Function][]Edge{}, In: map[*ssa.Function][]Edge{}, repoSet: map[*ssa.Function]bool{}, Tables: map[*ssa.Global][]TableEntry{}}
+	g := &Graph{P: p, Out: map[*ssa.Function][]Edge{}, In: map[*ssa.Function][]Edge{}, repoSet: map[*ssa.Function]bool{}, Tables: map[*ssa.Global][]TableEntry{}, FieldTables: map[FieldTableKey][]TableEntry{}}
 	for _, f := range p.RepoFuncs {
 		g.repoSet[f] = true
 	}
@@ -177,8 +186,25 @@ func (g *Graph) buildTables() {
 				if !ok {
 					continue
 				}
+				// in-place initialisation of an array-of-structs table: *(&global[k].field) = fn
+				if fa, ok := st.Addr.(*ssa.FieldAddr); ok {
+					if ia, ok := fa.X.(*ssa.IndexAddr); ok {
+						if agl, ok := ia.X.(*ssa.Global); ok {
+							if k, isK := ia.Index.(*ssa.Const); isK {
+								if fn := funcOfValue(st.Val); fn != nil {
+									key := FieldTableKey{agl, fa.Field}
+									g.FieldTables[key] = append(g.FieldTables[key], TableEntry{Key: k.Value, Fn: fn, Pos: st.Pos()})
+								}
+							}
+						}
+					}
+					continue
+				}
 				gl, ok := st.Addr.(*ssa.Global)
 				if !ok {
+					continue
+				}
+				if g.buildFieldTables(gl, st) {
 					continue
 				}
 				mm, ok := st.Val.(*ssa.MakeMap)
@@ -209,6 +235,106 @@ func (g *Graph) buildTables() {
 			}
 		}
 	}
+}
+
+// buildFieldTables decodes `*global = *localArray` where every element of the local array was filled from a local struct
+// literal whose function-typed fields hold constant functions.
+func (g *Graph) buildFieldTables(gl *ssa.Global, st *ssa.Store) bool {
+	ld, ok := st.Val.(*ssa.UnOp)
+	if !ok || ld.Op != token.MUL {
+		return false
+	}
+	arr, ok := ld.X.(*ssa.Alloc)
+	if !ok || arr.Referrers() == nil {
+		return false
+	}
+	at, ok := arr.Type().Underlying().(*types.Pointer)
+	if !ok {
+		return false
+	}
+	av, ok := at.Elem().Underlying().(*types.Array)
+	if !ok {
+		return false
+	}
+	est, ok := av.Elem().Underlying().(*types.Struct)
+	if !ok {
+		return false
+	}
+	hasFunc := false
+	for i := 0; i < est.NumFields(); i++ {
+		if _, isSig := est.Field(i).Type().Underlying().(*types.Signature); isSig {
+			hasFunc = true
+		}
+	}
+	if !hasFunc {
+		return false
+	}
+	found := false
+	for _, ref := range *arr.Referrers() {
+		ia, ok := ref.(*ssa.IndexAddr)
+		if !ok || ia.Referrers() == nil {
+			continue
+		}
+		k, isK := ia.Index.(*ssa.Const)
+		if !isK {
+			continue
+		}
+		for _, r2 := range *ia.Referrers() {
+			est2, ok := r2.(*ssa.Store)
+			if !ok || est2.Addr != ssa.Value(ia) {
+				continue
+			}
+			sld, ok := est2.Val.(*ssa.UnOp)
+			if !ok || sld.Op != token.MUL {
+				continue
+			}
+			sal, ok := sld.X.(*ssa.Alloc)
+			if !ok || sal.Referrers() == nil {
+				continue
+			}
+			for _, r3 := range *sal.Referrers() {
+				fa, ok := r3.(*ssa.FieldAddr)
+				if !ok || fa.Referrers() == nil {
+					continue
+				}
+				for _, r4 := range *fa.Referrers() {
+					fst, ok := r4.(*ssa.Store)
+					if !ok || fst.Addr != ssa.Value(fa) {
+						continue
+					}
+					if fn := funcOfValue(fst.Val); fn != nil {
+						key := FieldTableKey{gl, fa.Field}
+						g.FieldTables[key] = append(g.FieldTables[key], TableEntry{Key: k.Value, Fn: fn, Pos: fst.Pos()})
+						found = true
+					}
+				}
+			}
+		}
+	}
+	return found
+}
+
+// FieldTableOfLoad: v loads `global[i].field` of an array-of-structs dispatch table; returns its entries.
+func (g *Graph) FieldTableOfLoad(v ssa.Value) ([]TableEntry, FieldTableKey, bool) {
+	u, ok := v.(*ssa.UnOp)
+	if !ok || u.Op != token.MUL {
+		return nil, FieldTableKey{}, false
+	}
+	fa, ok := u.X.(*ssa.FieldAddr)
+	if !ok {
+		return nil, FieldTableKey{}, false
+	}
+	ia, ok := fa.X.(*ssa.IndexAddr)
+	if !ok {
+		return nil, FieldTableKey{}, false
+	}
+	gl, ok := ia.X.(*ssa.Global)
+	if !ok {
+		return nil, FieldTableKey{}, false
+	}
+	key := FieldTableKey{gl, fa.Field}
+	ents, has := g.FieldTables[key]
+	return ents, key, has
 }
 
 func funcOfValue(v ssa.Value) *ssa.Function {
@@ -388,6 +514,16 @@ func (g *Graph) resolveFuncValueCtx(v ssa.Value, feasible map[[2]*ssa.BasicBlock
 				}
 			}
 			rec(x.Tuple, feas, sp, depth+1)
+		case *ssa.UnOp:
+			if ents, _, ok := g.FieldTableOfLoad(x); ok {
+				for _, e := range ents {
+					if e.Fn != nil {
+						fns = append(fns, e.Fn)
+					}
+				}
+				return
+			}
+			precise = false
 		case *ssa.Lookup:
 			mv := x.X
 			if ct, ok := mv.(*ssa.ChangeType); ok {
